@@ -2,36 +2,1174 @@ package main
 
 import (
 	"fmt"
+	"runtime"
+	"sort"
+	"strings"
+	"sync"
+	"time"
+	"unicode/utf8"
 
 	"github.com/prometheus/client_golang/prometheus"
+	dto "github.com/prometheus/client_model/go"
+
+	"verifharness/internal/cli"
+	"verifharness/internal/emit"
 )
 
-func try(name string, f func()) {
-	defer func() {
-		if r := recover(); r != nil {
-			fmt.Println(name, "PANIC:", r)
-		}
-	}()
-	f()
+// C07: metric vectors (vec.go) -- lookups, deletions, currying, collection, hash collisions, constraints.
+// Wire format: see coq/theories/Run/C07_run.v.
+//   (0 hmode names conscodes ops results) | (1 tuples children) | (2 bytes valid)
+
+func main() { cli.Main("C07", runC07) }
+
+// ---------------------------------------------------------------------------------------------
+// adapter over the four vector types
+// ---------------------------------------------------------------------------------------------
+
+type adapter struct {
+	getLV      func(lvs []string) (prometheus.Metric, error)
+	withLV     func(lvs []string) prometheus.Metric
+	getL       func(l prometheus.Labels) (prometheus.Metric, error)
+	withL      func(l prometheus.Labels) prometheus.Metric
+	curry      func(l prometheus.Labels) (*adapter, error)
+	mustCurry  func(l prometheus.Labels) *adapter
+	delLV      func(lvs []string) bool
+	delL       func(l prometheus.Labels) bool
+	delPartial func(l prometheus.Labels) int
+	reset      func()
+	collect    func(ch chan<- prometheus.Metric)
 }
 
-func main() {
-	id := func(s string) string { return s }
-	cv := prometheus.V2.NewCounterVec(prometheus.CounterVecOpts{
-		CounterOpts:    prometheus.CounterOpts{Name: "m", Help: "h"},
-		VariableLabels: prometheus.ConstrainedLabels{{Name: "a", Constraint: id}, {Name: "b"}, {Name: "c"}},
+type vecAPI[M any, V any] interface {
+	GetMetricWithLabelValues(lvs ...string) (M, error)
+	WithLabelValues(lvs ...string) M
+	GetMetricWith(l prometheus.Labels) (M, error)
+	With(l prometheus.Labels) M
+	CurryWith(l prometheus.Labels) (V, error)
+	MustCurryWith(l prometheus.Labels) V
+}
+
+type delAPI interface {
+	DeleteLabelValues(lvs ...string) bool
+	Delete(l prometheus.Labels) bool
+	DeletePartialMatch(l prometheus.Labels) int
+	Reset()
+	Collect(ch chan<- prometheus.Metric)
+}
+
+func toMetric[M any](m M) prometheus.Metric {
+	x, _ := any(m).(prometheus.Metric)
+	return x
+}
+
+func mk[M any, V any](v vecAPI[M, V]) *adapter {
+	d := any(v).(delAPI)
+	return &adapter{
+		getLV: func(lvs []string) (prometheus.Metric, error) {
+			m, err := v.GetMetricWithLabelValues(lvs...)
+			if err != nil {
+				return nil, err
+			}
+			return toMetric(m), nil
+		},
+		withLV: func(lvs []string) prometheus.Metric { return toMetric(v.WithLabelValues(lvs...)) },
+		getL: func(l prometheus.Labels) (prometheus.Metric, error) {
+			m, err := v.GetMetricWith(l)
+			if err != nil {
+				return nil, err
+			}
+			return toMetric(m), nil
+		},
+		withL: func(l prometheus.Labels) prometheus.Metric { return toMetric(v.With(l)) },
+		curry: func(l prometheus.Labels) (*adapter, error) {
+			nv, err := v.CurryWith(l)
+			if err != nil {
+				return nil, err
+			}
+			return mk[M, V](any(nv).(vecAPI[M, V])), nil
+		},
+		mustCurry: func(l prometheus.Labels) *adapter {
+			nv := v.MustCurryWith(l)
+			return mk[M, V](any(nv).(vecAPI[M, V]))
+		},
+		delLV:      func(lvs []string) bool { return d.DeleteLabelValues(lvs...) },
+		delL:       func(l prometheus.Labels) bool { return d.Delete(l) },
+		delPartial: func(l prometheus.Labels) int { return d.DeletePartialMatch(l) },
+		reset:      d.Reset,
+		collect:    d.Collect,
+	}
+}
+
+var typeNames = []string{"counter", "gauge", "histogram", "summary"}
+
+func lowerASCII(s string) string {
+	b := []byte(s)
+	for i, c := range b {
+		if c >= 'A' && c <= 'Z' {
+			b[i] = c + 32
+		}
+	}
+	return string(b)
+}
+
+func consFn(code int) prometheus.LabelConstraint {
+	switch code {
+	case 1:
+		return lowerASCII
+	case 2:
+		return func(s string) string {
+			if len(s) > 2 {
+				return s[:2]
+			}
+			return s
+		}
+	case 3:
+		return func(string) string { return "c" }
+	case 4:
+		return func(s string) string { return s + "!" }
+	case 5:
+		return func(s string) string { return s }
+	}
+	return nil
+}
+
+// newVec builds a vector of the given type; plain selects the v1 constructor (only when all codes are 0).
+func newVec(typ, hmode int, names []string, codes []int, plain bool) *adapter {
+	cl := make(prometheus.ConstrainedLabels, len(names))
+	for i, n := range names {
+		cl[i] = prometheus.ConstrainedLabel{Name: n, Constraint: consFn(codes[i])}
+	}
+	var a *adapter
+	var mv *prometheus.MetricVec
+	switch typ {
+	case 0:
+		var v *prometheus.CounterVec
+		o := prometheus.CounterOpts{Name: "m", Help: "h"}
+		if plain {
+			v = prometheus.NewCounterVec(o, names)
+		} else {
+			v = prometheus.V2.NewCounterVec(prometheus.CounterVecOpts{CounterOpts: o, VariableLabels: cl})
+		}
+		a, mv = mk[prometheus.Counter, *prometheus.CounterVec](v), v.MetricVec
+	case 1:
+		var v *prometheus.GaugeVec
+		o := prometheus.GaugeOpts{Name: "m", Help: "h"}
+		if plain {
+			v = prometheus.NewGaugeVec(o, names)
+		} else {
+			v = prometheus.V2.NewGaugeVec(prometheus.GaugeVecOpts{GaugeOpts: o, VariableLabels: cl})
+		}
+		a, mv = mk[prometheus.Gauge, *prometheus.GaugeVec](v), v.MetricVec
+	case 2:
+		var v *prometheus.HistogramVec
+		o := prometheus.HistogramOpts{Name: "m", Help: "h"}
+		if plain {
+			v = prometheus.NewHistogramVec(o, names)
+		} else {
+			v = prometheus.V2.NewHistogramVec(prometheus.HistogramVecOpts{HistogramOpts: o, VariableLabels: cl})
+		}
+		a, mv = mk[prometheus.Observer, prometheus.ObserverVec](v), v.MetricVec
+	default:
+		var v *prometheus.SummaryVec
+		o := prometheus.SummaryOpts{Name: "m", Help: "h"}
+		if plain {
+			v = prometheus.NewSummaryVec(o, names)
+		} else {
+			v = prometheus.V2.NewSummaryVec(prometheus.SummaryVecOpts{SummaryOpts: o, VariableLabels: cl})
+		}
+		a, mv = mk[prometheus.Observer, prometheus.ObserverVec](v), v.MetricVec
+	}
+	keepB := func(h uint64, b byte) uint64 { return h }
+	switch hmode {
+	case 1:
+		prometheus.VerifPlantHash(mv, func(h uint64, s string) uint64 { return h }, keepB)
+	case 2:
+		prometheus.VerifPlantHash(mv, func(h uint64, s string) uint64 { return (h + uint64(len(s))) % 4 }, keepB)
+	case 3:
+		prometheus.VerifPlantHash(mv, func(h uint64, s string) uint64 {
+			for i := 0; i < len(s); i++ {
+				h ^= uint64(s[i])
+				h *= 1099511628211
+			}
+			return h
+		}, keepB)
+	}
+	return a
+}
+
+// drain runs collect into a channel and returns everything it sent.
+func drain(collect func(ch chan<- prometheus.Metric)) []prometheus.Metric {
+	ch := make(chan prometheus.Metric, 64)
+	perr := make(chan interface{}, 1)
+	go func() {
+		defer func() {
+			r := recover()
+			close(ch)
+			perr <- r
+		}()
+		collect(ch)
+	}()
+	var out []prometheus.Metric
+	for m := range ch {
+		out = append(out, m)
+	}
+	if r := <-perr; r != nil {
+		panic(r)
+	}
+	return out
+}
+
+func labelValuesOf(m prometheus.Metric, names []string) ([]string, *dto.Metric) {
+	var d dto.Metric
+	if err := m.Write(&d); err != nil {
+		panic(err)
+	}
+	mp := map[string]string{}
+	for _, lp := range d.Label {
+		mp[lp.GetName()] = lp.GetValue()
+	}
+	vals := make([]string, len(names))
+	for i, n := range names {
+		vals[i] = mp[n]
+	}
+	return vals, &d
+}
+
+// ---------------------------------------------------------------------------------------------
+// sequential cases
+// ---------------------------------------------------------------------------------------------
+
+var allNames = []string{"a", "b", "ab", "a_b", "z", "A"}
+var validVals = []string{"", "a", "b", "ab", "abc", "A", "aB", "a!", "c", "é", "日本"}
+var invalidVals = []string{"a\xffb", "\xff", "\xc3", "\xe2\x82", "a\x80"}
+
+type view struct {
+	a       *adapter
+	curried []bool
+}
+
+func (v *view) nCurried() int {
+	n := 0
+	for _, c := range v.curried {
+		if c {
+			n++
+		}
+	}
+	return n
+}
+
+type seqGen struct {
+	r      *emit.Rng
+	names  []string
+	pool   []string
+	pm     int // malformed probability in percent
+	views  []*view
+	ids    map[prometheus.Metric]int
+	ops    []string
+	res    []string
+	errs   map[int]bool
+	delHit bool
+}
+
+func emitLabels(l prometheus.Labels) string {
+	ks := make([]string, 0, len(l))
+	for k := range l {
+		ks = append(ks, k)
+	}
+	sort.Strings(ks)
+	it := make([]string, len(ks))
+	for i, k := range ks {
+		it[i] = emit.Tup(emit.S(k), emit.S(l[k]))
+	}
+	return emit.L(it)
+}
+
+func classify(msg string) int {
+	switch {
+	case strings.Contains(msg, "inconsistent label cardinality"):
+		return 1
+	case strings.Contains(msg, "is not valid UTF-8"):
+		return 2
+	case strings.Contains(msg, "is already curried"):
+		return 3
+	case strings.Contains(msg, "missing in label map"):
+		return 4
+	case strings.Contains(msg, "unknown label(s) found during currying"):
+		return 6
+	}
+	return 0
+}
+
+func (g *seqGen) errRes(code int, panicked bool) string {
+	g.errs[code] = true
+	return emit.C(1, emit.I(code), emit.B(panicked))
+}
+
+// exec runs one operation; a panic becomes a (1 err 1) result.
+func (g *seqGen) exec(f func() string) (res string) {
+	defer func() {
+		if r := recover(); r != nil {
+			switch x := r.(type) {
+			case runtime.Error:
+				res = g.errRes(5, true)
+			case error:
+				res = g.errRes(classify(x.Error()), true)
+			default:
+				res = g.errRes(classify(fmt.Sprint(r)), true)
+			}
+		}
+	}()
+	return f()
+}
+
+func (g *seqGen) child(m prometheus.Metric) string {
+	id, ok := g.ids[m]
+	if !ok {
+		id = len(g.ids)
+		g.ids[m] = id
+	}
+	return emit.C(0, emit.I(id))
+}
+
+func (g *seqGen) val() string { return g.pool[g.r.Intn(len(g.pool))] }
+func (g *seqGen) badVal() string {
+	return invalidVals[g.r.Intn(len(invalidVals))]
+}
+
+func (g *seqGen) unknownName() string {
+	var c []string
+	for _, n := range allNames {
+		if !contains(g.names, n) {
+			c = append(c, n)
+		}
+	}
+	c = append(c, "zz")
+	return c[g.r.Intn(len(c))]
+}
+
+func contains(l []string, s string) bool {
+	for _, x := range l {
+		if x == s {
+			return true
+		}
+	}
+	return false
+}
+
+func (g *seqGen) freeCurried(v *view) (free, cur []string) {
+	for i, n := range g.names {
+		if v.curried[i] {
+			cur = append(cur, n)
+		} else {
+			free = append(free, n)
+		}
+	}
+	return
+}
+
+func (g *seqGen) malformed() bool { return g.r.Intn(100) < g.pm }
+
+// genLVs builds the positional values for a view (possibly malformed).
+func (g *seqGen) genLVs(v *view) []string {
+	free, cur := g.freeCurried(v)
+	lvs := make([]string, len(free))
+	for i := range lvs {
+		lvs[i] = g.val()
+	}
+	if !g.malformed() {
+		return lvs
+	}
+	k := g.r.Intn(5)
+	if len(cur) > 0 && g.r.Chance(1, 2) {
+		k = []int{0, 1, 4}[g.r.Intn(3)] // wrong arity on a curried view
+	}
+	switch k {
+	case 0:
+		if len(lvs) > 0 {
+			i := g.r.Intn(len(lvs))
+			return append(lvs[:i:i], lvs[i+1:]...)
+		}
+		return append(lvs, g.val())
+	case 1:
+		return append(lvs, g.val())
+	case 2:
+		if len(lvs) > 0 {
+			return []string{}
+		}
+		return append(lvs, g.val(), g.val())
+	case 3:
+		if len(lvs) > 0 {
+			lvs[g.r.Intn(len(lvs))] = g.badVal()
+			return lvs
+		}
+		return append(lvs, g.badVal())
+	default: // as many values as the uncurried vector has labels
+		for len(lvs) < len(g.names) {
+			lvs = append(lvs, g.val())
+		}
+		if len(cur) == 0 {
+			lvs = append(lvs, g.val())
+		}
+		return lvs
+	}
+}
+
+// genLabels builds a label map for lookups/Delete on a view (possibly malformed).
+func (g *seqGen) genLabels(v *view) prometheus.Labels {
+	free, cur := g.freeCurried(v)
+	l := prometheus.Labels{}
+	for _, n := range free {
+		l[n] = g.val()
+	}
+	if g.malformed() {
+		g.mutateLabels(l, free, cur)
+	}
+	return l
+}
+
+func (g *seqGen) mutateLabels(l prometheus.Labels, free, cur []string) {
+	present := make([]string, 0, len(l))
+	for _, n := range free {
+		if _, ok := l[n]; ok {
+			present = append(present, n)
+		}
+	}
+	k := g.r.Intn(6)
+	if len(present) == 0 && (k == 1 || k == 2 || k == 4 || k == 5) {
+		k = []int{0, 3}[g.r.Intn(2)]
+	}
+	if len(cur) == 0 && (k == 3 || k == 4) {
+		k = 0
+	}
+	switch k {
+	case 0: // extra unknown label
+		l[g.unknownName()] = g.val()
+	case 1: // substitute a name with an unknown one
+		n := present[g.r.Intn(len(present))]
+		delete(l, n)
+		l[g.unknownName()] = g.val()
+	case 2: // drop a label
+		delete(l, present[g.r.Intn(len(present))])
+	case 3: // add an already curried label
+		l[cur[g.r.Intn(len(cur))]] = g.val()
+	case 4: // substitute a free name with a curried one
+		delete(l, present[g.r.Intn(len(present))])
+		l[cur[g.r.Intn(len(cur))]] = g.val()
+	case 5: // invalid UTF-8 value
+		l[present[g.r.Intn(len(present))]] = g.badVal()
+	}
+}
+
+func (g *seqGen) pickView() int { return g.r.Intn(len(g.views)) }
+
+func (g *seqGen) curriedViews() int {
+	n := 0
+	for _, v := range g.views {
+		if v.nCurried() > 0 {
+			n++
+		}
+	}
+	return n
+}
+
+func (g *seqGen) push(op, res string) {
+	g.ops = append(g.ops, op)
+	g.res = append(g.res, res)
+}
+
+func (g *seqGen) opLookup() {
+	vi := g.pickView()
+	v := g.views[vi]
+	must := g.r.Bool()
+	if g.r.Bool() {
+		lvs := g.genLVs(v)
+		op := emit.C(0, emit.I(vi), emit.B(must), emit.SL(lvs))
+		g.push(op, g.exec(func() string {
+			if must {
+				return g.child(v.a.withLV(lvs))
+			}
+			m, err := v.a.getLV(lvs)
+			if err != nil {
+				return g.errRes(classify(err.Error()), false)
+			}
+			return g.child(m)
+		}))
+		return
+	}
+	l := g.genLabels(v)
+	op := emit.C(1, emit.I(vi), emit.B(must), emitLabels(l))
+	g.push(op, g.exec(func() string {
+		if must {
+			return g.child(v.a.withL(l))
+		}
+		m, err := v.a.getL(l)
+		if err != nil {
+			return g.errRes(classify(err.Error()), false)
+		}
+		return g.child(m)
+	}))
+}
+
+func (g *seqGen) opDelete() {
+	vi := g.pickView()
+	v := g.views[vi]
+	switch g.r.Intn(3) {
+	case 0:
+		lvs := g.genLVs(v)
+		g.push(emit.C(3, emit.I(vi), emit.SL(lvs)), g.exec(func() string {
+			b := v.a.delLV(lvs)
+			g.delHit = g.delHit || b
+			return emit.C(2, emit.B(b))
+		}))
+	case 1:
+		l := g.genLabels(v)
+		g.push(emit.C(4, emit.I(vi), emitLabels(l)), g.exec(func() string {
+			b := v.a.delL(l)
+			g.delHit = g.delHit || b
+			return emit.C(2, emit.B(b))
+		}))
+	default:
+		free, cur := g.freeCurried(v)
+		l := prometheus.Labels{}
+		if g.r.Chance(1, 5) {
+			for _, n := range free {
+				l[n] = g.val()
+			}
+		} else {
+			k := g.r.Intn(3)
+			for i := 0; i < k && len(free) > 0; i++ {
+				l[free[g.r.Intn(len(free))]] = g.val()
+			}
+		}
+		if g.malformed() {
+			switch k := g.r.Intn(3); {
+			case k == 0 || len(cur) == 0 && k == 1:
+				l[g.unknownName()] = g.val()
+			case k == 1:
+				l[cur[g.r.Intn(len(cur))]] = g.val()
+			default:
+				if len(free) > 0 {
+					l[free[g.r.Intn(len(free))]] = g.badVal()
+				} else {
+					l[g.unknownName()] = g.badVal()
+				}
+			}
+		}
+		g.push(emit.C(5, emit.I(vi), emitLabels(l)), g.exec(func() string {
+			n := v.a.delPartial(l)
+			g.delHit = g.delHit || n > 0
+			return emit.C(3, emit.I(n))
+		}))
+	}
+}
+
+func (g *seqGen) doCurry(vi int, l prometheus.Labels) {
+	v := g.views[vi]
+	must := g.r.Bool()
+	op := emit.C(2, emit.I(vi), emit.B(must), emitLabels(l))
+	g.push(op, g.exec(func() string {
+		var na *adapter
+		if must {
+			na = v.a.mustCurry(l)
+		} else {
+			var err error
+			na, err = v.a.curry(l)
+			if err != nil {
+				return g.errRes(classify(err.Error()), false)
+			}
+		}
+		nc := append([]bool(nil), v.curried...)
+		for i, n := range g.names {
+			if _, ok := l[n]; ok {
+				nc[i] = true
+			}
+		}
+		g.views = append(g.views, &view{a: na, curried: nc})
+		return emit.C(6)
+	}))
+}
+
+// opCurry returns false when it decided not to emit an operation.
+func (g *seqGen) opCurry() bool {
+	if g.curriedViews() >= 3 {
+		if !g.r.Chance(1, 5) {
+			return false
+		}
+		// an attempt that fails: a label that is already curried in that view
+		var cand []int
+		for i, v := range g.views {
+			if v.nCurried() > 0 {
+				cand = append(cand, i)
+			}
+		}
+		vi := cand[g.r.Intn(len(cand))]
+		free, cur := g.freeCurried(g.views[vi])
+		l := prometheus.Labels{cur[g.r.Intn(len(cur))]: g.val()}
+		if len(free) > 0 && g.r.Bool() {
+			l[free[g.r.Intn(len(free))]] = g.val()
+		}
+		g.doCurry(vi, l)
+		return true
+	}
+	vi := g.pickView()
+	free, cur := g.freeCurried(g.views[vi])
+	l := prometheus.Labels{}
+	if len(free) > 0 {
+		k := 1
+		if g.r.Chance(1, 4) {
+			k = 1 + g.r.Intn(len(free))
+		}
+		for i := 0; i < k; i++ {
+			l[free[g.r.Intn(len(free))]] = g.val()
+		}
+	} else if g.r.Chance(2, 3) {
+		l[g.unknownName()] = g.val()
+	}
+	if g.malformed() {
+		switch k := g.r.Intn(3); {
+		case k == 0 || len(cur) == 0 && k == 1:
+			l[g.unknownName()] = g.val()
+		case k == 1:
+			l[cur[g.r.Intn(len(cur))]] = g.val()
+		default:
+			if len(free) > 0 {
+				l[free[g.r.Intn(len(free))]] = g.badVal()
+			} else {
+				l[g.unknownName()] = g.badVal()
+			}
+		}
+	}
+	g.doCurry(vi, l)
+	return true
+}
+
+func lessVals(a, b []string) bool {
+	for i := 0; i < len(a) && i < len(b); i++ {
+		if a[i] != b[i] {
+			return a[i] < b[i]
+		}
+	}
+	return len(a) < len(b)
+}
+
+func (g *seqGen) opCollect(vi int) {
+	v := g.views[vi]
+	g.push(emit.C(7, emit.I(vi)), g.exec(func() string {
+		type ent struct {
+			vals []string
+			id   int
+		}
+		var es []ent
+		for _, m := range drain(v.a.collect) {
+			vals, _ := labelValuesOf(m, g.names)
+			id, ok := g.ids[m]
+			if !ok {
+				id = 999999
+			}
+			es = append(es, ent{vals, id})
+		}
+		sort.SliceStable(es, func(i, j int) bool {
+			if es[i].id != es[j].id {
+				return es[i].id < es[j].id
+			}
+			return lessVals(es[i].vals, es[j].vals)
+		})
+		it := make([]string, len(es))
+		for i, e := range es {
+			it[i] = emit.Tup(emit.SL(e.vals), emit.I(e.id))
+		}
+		return emit.C(5, emit.L(it))
+	}))
+}
+
+func genSeqCase(r *emit.Rng, pm int, invalidCommon bool) (string, bool, []string) {
+	g := &seqGen{r: r, pm: pm, ids: map[prometheus.Metric]int{}, errs: map[int]bool{}}
+	typ := r.Intn(4)
+	// names
+	perm := append([]string(nil), allNames...)
+	for i := len(perm) - 1; i > 0; i-- {
+		j := r.Intn(i + 1)
+		perm[i], perm[j] = perm[j], perm[i]
+	}
+	nn := r.Intn(5)
+	if r.Chance(1, 2) {
+		nn = 2 + r.Intn(2) // two or three labels are the interesting sizes
+	}
+	g.names = perm[:nn]
+	// constraints
+	codes := make([]int, nn)
+	constrained := false
+	if !r.Chance(60, 100) {
+		for i := range codes {
+			codes[i] = r.Intn(6)
+			constrained = constrained || codes[i] != 0
+		}
+	}
+	// hash mode
+	hmode := 0
+	switch x := r.Intn(100); {
+	case x < 40:
+		hmode = 0
+	case x < 65:
+		hmode = 1
+	case x < 85:
+		hmode = 2
+	default:
+		hmode = 3
+	}
+	// value pool
+	np := 3 + r.Intn(3)
+	for len(g.pool) < np {
+		var s string
+		switch {
+		case invalidCommon && r.Chance(1, 4), !invalidCommon && r.Chance(1, 60):
+			s = invalidVals[r.Intn(len(invalidVals))]
+		case hmode >= 2 && r.Chance(7, 10):
+			s = validVals[r.Intn(5)] // "", a, b, ab, abc: collide under hash modes 2 and 3
+		default:
+			s = validVals[r.Intn(len(validVals))]
+		}
+		if !contains(g.pool, s) {
+			g.pool = append(g.pool, s)
+		}
+	}
+	plain := !constrained && r.Bool()
+	g.views = []*view{{a: newVec(typ, hmode, g.names, codes, plain), curried: make([]bool, nn)}}
+
+	nops := 40 + r.Intn(41)
+	for len(g.ops) < nops {
+		switch x := r.Intn(100); {
+		case x < 55:
+			g.opLookup()
+		case x < 78:
+			g.opDelete()
+		case x < 88:
+			if !g.opCurry() {
+				g.opLookup()
+			}
+		case x < 90:
+			vi := g.pickView()
+			v := g.views[vi]
+			g.push(emit.C(6, emit.I(vi)), g.exec(func() string { v.a.reset(); return emit.C(4) }))
+		default:
+			g.opCollect(g.pickView())
+		}
+	}
+	g.opCollect(0)
+
+	names := emit.SL(g.names)
+	cs := make([]string, nn)
+	for i, c := range codes {
+		cs[i] = emit.I(c)
+	}
+	term := emit.C(0, emit.I(hmode), names, emit.L(cs), emit.L(g.ops), emit.L(g.res))
+	tags := []string{"type:" + typeNames[typ], fmt.Sprintf("hmode:%d", hmode), fmt.Sprintf("names:%d", nn)}
+	if constrained {
+		tags = append(tags, "constrained")
+	} else {
+		tags = append(tags, "unconstrained")
+	}
+	if plain {
+		tags = append(tags, "ctor:v1")
+	} else {
+		tags = append(tags, "ctor:v2")
+	}
+	ek := make([]int, 0, len(g.errs))
+	for e := range g.errs {
+		ek = append(ek, e)
+	}
+	sort.Ints(ek)
+	for _, e := range ek {
+		tags = append(tags, fmt.Sprintf("err:%d", e))
+	}
+	tags = append(tags, fmt.Sprintf("views:%d", len(g.views)-1))
+	nontrivial := len(g.ids) >= 2 && g.delHit && len(g.errs) > 0
+	return term, nontrivial, tags
+}
+
+// ---------------------------------------------------------------------------------------------
+// stress runs
+// ---------------------------------------------------------------------------------------------
+
+func bump(m prometheus.Metric) {
+	switch x := m.(type) {
+	case prometheus.Observer:
+		x.Observe(1)
+	case interface{ Inc() }:
+		x.Inc()
+	default:
+		panic("child is neither an Observer nor has Inc")
+	}
+}
+
+func childValue(d *dto.Metric) int64 {
+	switch {
+	case d.Counter != nil:
+		return int64(d.Counter.GetValue())
+	case d.Gauge != nil:
+		return int64(d.Gauge.GetValue())
+	case d.Histogram != nil:
+		return int64(d.Histogram.GetSampleCount())
+	case d.Summary != nil:
+		return int64(d.Summary.GetSampleCount())
+	}
+	return -1
+}
+
+type ptrRec struct {
+	incs  int64
+	tuple int
+}
+
+type stressView struct {
+	a   *adapter
+	idx int    // the curried label
+	val string // its value
+}
+
+func genStress(r *emit.Rng) (string, bool, []string, []string) {
+	var failures []string
+	var fmu sync.Mutex
+	fail := func(s string) {
+		fmu.Lock()
+		if len(failures) < 8 {
+			failures = append(failures, s)
+		}
+		fmu.Unlock()
+	}
+	typ := r.Intn(4)
+	hmode := r.Intn(3)
+	nn := 1 + r.Intn(2)
+	names := []string{"a", "b"}[:nn]
+	codes := make([]int, nn)
+	constrained := r.Chance(3, 10)
+	if constrained {
+		for i := range codes {
+			codes[i] = 5 * r.Intn(2) // identity constraint: exercises constrainLabels and its pool
+		}
+		codes[r.Intn(nn)] = 5
+	}
+	base := newVec(typ, hmode, names, codes, !constrained && r.Bool())
+	// pool of distinct tuples
+	vals := []string{"", "a", "b", "ab", "abc", "é"}
+	nt := 2 + r.Intn(3)
+	var tuples [][]string
+	for len(tuples) < nt {
+		t := make([]string, nn)
+		for i := range t {
+			t[i] = vals[r.Intn(len(vals))]
+		}
+		dup := false
+		for _, u := range tuples {
+			dup = dup || strings.Join(u, "\x00") == strings.Join(t, "\x00")
+		}
+		if !dup {
+			tuples = append(tuples, t)
+		}
+	}
+	// curried views (created before the goroutines start)
+	var views []stressView
+	for _, t := range tuples {
+		if r.Bool() {
+			k := r.Intn(nn)
+			na, err := base.curry(prometheus.Labels{names[k]: t[k]})
+			if err != nil {
+				fail("curry: " + err.Error())
+				continue
+			}
+			views = append(views, stressView{na, k, t[k]})
+		}
+	}
+	labelsOf := func(t []string) prometheus.Labels {
+		l := prometheus.Labels{}
+		for i, n := range names {
+			l[n] = t[i]
+		}
+		return l
+	}
+	ng := 4 + r.Intn(5)
+	type local struct {
+		ptrs map[prometheus.Metric]*ptrRec
+		dels []int64
+	}
+	locals := make([]*local, ng)
+	start := make(chan struct{})
+	var wg sync.WaitGroup
+	for gi := 0; gi < ng; gi++ {
+		lr := r.Fork()
+		nops := 200 + r.Intn(301)
+		lc := &local{ptrs: map[prometheus.Metric]*ptrRec{}, dels: make([]int64, nt)}
+		locals[gi] = lc
+		wg.Add(1)
+		go func(gi int) {
+			defer wg.Done()
+			defer func() {
+				if x := recover(); x != nil {
+					fail(fmt.Sprintf("goroutine %d panicked: %v", gi, x))
+				}
+			}()
+			<-start
+			for o := 0; o < nops; o++ {
+				ti := lr.Intn(nt)
+				t := tuples[ti]
+				switch x := lr.Intn(10); {
+				case x < 6:
+					var m prometheus.Metric
+					var err error
+					switch lr.Intn(4) {
+					case 0:
+						m = base.withLV(t)
+					case 1:
+						m = base.withL(labelsOf(t))
+					case 2:
+						m, err = base.getL(labelsOf(t))
+					default:
+						var cand []stressView
+						for _, v := range views {
+							if t[v.idx] == v.val {
+								cand = append(cand, v)
+							}
+						}
+						if len(cand) == 0 {
+							m, err = base.getLV(t)
+							break
+						}
+						v := cand[lr.Intn(len(cand))]
+						rest := append(append([]string(nil), t[:v.idx]...), t[v.idx+1:]...)
+						if lr.Bool() {
+							m = v.a.withLV(rest)
+						} else {
+							l := labelsOf(t)
+							delete(l, names[v.idx])
+							m, err = v.a.getL(l)
+						}
+					}
+					if err != nil || m == nil {
+						fail(fmt.Sprintf("goroutine %d: lookup failed: %v", gi, err))
+						continue
+					}
+					bump(m)
+					rec := lc.ptrs[m]
+					if rec == nil {
+						rec = &ptrRec{tuple: ti}
+						lc.ptrs[m] = rec
+					}
+					if rec.tuple != ti {
+						fail("one child returned for two different tuples")
+					}
+					rec.incs++
+				case x < 9:
+					switch lr.Intn(3) {
+					case 0:
+						if base.delLV(t) {
+							lc.dels[ti]++
+						}
+					case 1:
+						if base.delL(labelsOf(t)) {
+							lc.dels[ti]++
+						}
+					default:
+						lc.dels[ti] += int64(base.delPartial(labelsOf(t)))
+					}
+				default:
+					drain(base.collect)
+				}
+			}
+		}(gi)
+	}
+	close(start)
+	done := make(chan struct{})
+	go func() { wg.Wait(); close(done) }()
+	select {
+	case <-done:
+	case <-time.After(60 * time.Second):
+		fail("stress run did not finish within 60 s (deadlock?)")
+		return emit.C(1, emit.L(nil), emit.L(nil)), false, []string{"hang"}, failures
+	}
+	// aggregate
+	all := map[prometheus.Metric]*ptrRec{}
+	deleted := make([]int64, nt)
+	for _, lc := range locals {
+		for m, rec := range lc.ptrs {
+			a := all[m]
+			if a == nil {
+				a = &ptrRec{tuple: rec.tuple}
+				all[m] = a
+			}
+			if a.tuple != rec.tuple {
+				fail("one child returned for two different tuples (across goroutines)")
+			}
+			a.incs += rec.incs
+		}
+		for i, d := range lc.dels {
+			deleted[i] += d
+		}
+	}
+	created := make([]int64, nt)
+	type ch struct {
+		tuple       int
+		incs, value int64
+	}
+	var chs []ch
+	for m, rec := range all {
+		created[rec.tuple]++
+		_, d := labelValuesOf(m, names)
+		chs = append(chs, ch{rec.tuple, rec.incs, childValue(d)})
+	}
+	sort.Slice(chs, func(i, j int) bool {
+		if chs[i].tuple != chs[j].tuple {
+			return chs[i].tuple < chs[j].tuple
+		}
+		if chs[i].incs != chs[j].incs {
+			return chs[i].incs < chs[j].incs
+		}
+		return chs[i].value < chs[j].value
 	})
-	cur, err := cv.CurryWith(prometheus.Labels{"c": "x"})
-	fmt.Println("curry err", err)
-	try("get0", func() { _, err := cur.GetMetricWithLabelValues(); fmt.Println("get0 err:", err) })
-	try("get1", func() { _, err := cur.GetMetricWithLabelValues("1"); fmt.Println("get1 err:", err) })
-	try("del0", func() { fmt.Println("del0:", cur.DeleteLabelValues()) })
-	cur2, err := cv.CurryWith(prometheus.Labels{"a": "\xff"})
-	fmt.Println("curry invalid utf8 err", err)
-	c, err := cur2.GetMetricWithLabelValues("1", "2")
-	fmt.Println(c != nil, err)
-	reg := prometheus.NewRegistry()
-	reg.MustRegister(cv)
-	_, err = reg.Gather()
-	fmt.Println("gather err:", err)
+	live := make([]int64, nt)
+	for _, m := range drain(base.collect) {
+		vs, _ := labelValuesOf(m, names)
+		found := false
+		for i, t := range tuples {
+			if strings.Join(t, "\x00") == strings.Join(vs, "\x00") {
+				live[i]++
+				found = true
+			}
+		}
+		if !found {
+			fail(fmt.Sprintf("final Collect has a child outside the tuple pool: %q", vs))
+		}
+		if _, ok := all[m]; !ok {
+			fail("final Collect has a child no lookup ever returned")
+		}
+	}
+	nontrivial := false
+	ts := make([]string, nt)
+	for i := range tuples {
+		ts[i] = emit.Tup(emit.Z(created[i]), emit.Z(deleted[i]), emit.Z(live[i]))
+		nontrivial = nontrivial || created[i] >= 2
+	}
+	cs := make([]string, len(chs))
+	for i, c := range chs {
+		cs[i] = emit.Tup(emit.Z(c.incs), emit.Z(c.value))
+	}
+	tags := []string{"type:" + typeNames[typ], fmt.Sprintf("hmode:%d", hmode), fmt.Sprintf("goroutines:%d", ng),
+		fmt.Sprintf("names:%d", nn), fmt.Sprintf("views:%d", len(views))}
+	if constrained {
+		tags = append(tags, "constrained")
+	} else {
+		tags = append(tags, "unconstrained")
+	}
+	return emit.C(1, emit.L(ts), emit.L(cs)), nontrivial, tags, failures
+}
+
+// ---------------------------------------------------------------------------------------------
+// utf8.ValidString
+// ---------------------------------------------------------------------------------------------
+
+var utf8Special = []byte{0x00, 0x41, 0x7f, 0x80, 0x8f, 0x90, 0x9f, 0xa0, 0xbf, 0xc0, 0xc1, 0xc2, 0xdf, 0xe0, 0xec, 0xed, 0xee,
+	0xef, 0xf0, 0xf1, 0xf3, 0xf4, 0xf5, 0xff}
+
+func utf8Byte(r *emit.Rng) byte {
+	if r.Chance(7, 10) {
+		return utf8Special[r.Intn(len(utf8Special))]
+	}
+	return byte(r.Intn(256))
+}
+
+func genUTF8(r *emit.Rng) []byte {
+	if r.Chance(6, 10) {
+		b := make([]byte, r.Intn(7))
+		for i := range b {
+			b[i] = utf8Byte(r)
+		}
+		return b
+	}
+	var b []byte
+	for len(b) < 3 && (len(b) == 0 || r.Bool()) {
+		var c rune
+		switch r.Intn(8) {
+		case 0:
+			c = rune(r.Intn(0x80))
+		case 1:
+			c = rune(0x80 + r.Intn(0x780))
+		case 2:
+			c = rune(0x800 + r.Intn(0xd000))
+		case 3:
+			c = []rune{0x7f, 0x80, 0x7ff, 0x800, 0xfff, 0x1000, 0xcfff, 0xd000, 0xd7ff, 0xe000, 0xfffd, 0xffff, 0x10000, 0x3ffff,
+				0x40000, 0xfffff, 0x100000, 0x10ffff}[r.Intn(18)]
+		case 4:
+			c = rune(0xe000 + r.Intn(0x2000))
+		default:
+			c = rune(0x10000 + r.Intn(0x100000))
+		}
+		b = utf8.AppendRune(b, c)
+	}
+	switch r.Intn(4) {
+	case 0, 1:
+		b[r.Intn(len(b))] = utf8Byte(r)
+	case 2:
+		b = b[:r.Intn(len(b)+1)]
+	}
+	if len(b) > 6 {
+		b = b[:6]
+	}
+	return b
+}
+
+// ---------------------------------------------------------------------------------------------
+
+func runC07(c *cli.Ctx) error {
+	root := emit.NewRng(c.Seed)
+	rSeq, rMal, rStress, rUTF := root.Fork(), root.Fork(), root.Fork(), root.Fork()
+
+	w := emit.NewWriter(c.Out, "C07", "seq")
+	for i := 0; i < 600*c.Scale; i++ {
+		term, nt, tags := genSeqCase(rSeq.Fork(), 10, false)
+		w.Add(term, nt, tags...)
+	}
+	if err := w.Flush(); err != nil {
+		return err
+	}
+
+	w = emit.NewWriter(c.Out, "C07", "malformed")
+	for i := 0; i < 300*c.Scale; i++ {
+		term, nt, tags := genSeqCase(rMal.Fork(), 50, true)
+		w.Add(term, nt, tags...)
+	}
+	if err := w.Flush(); err != nil {
+		return err
+	}
+
+	w = emit.NewWriter(c.Out, "C07", "stress")
+	var direct []map[string]interface{}
+	for i := 0; i < 40*c.Scale; i++ {
+		term, nt, tags, failures := genStress(rStress.Fork())
+		for _, f := range failures {
+			direct = append(direct, map[string]interface{}{"index": i, "what": f})
+		}
+		w.Add(term, nt, tags...)
+	}
+	if len(direct) > 0 {
+		w.Extra["direct_failures"] = direct
+	}
+	if err := w.Flush(); err != nil {
+		return err
+	}
+
+	w = emit.NewWriter(c.Out, "C07", "utf8")
+	for i := 0; i < 2000*c.Scale; i++ {
+		b := genUTF8(rUTF)
+		s := string(b)
+		v := utf8.ValidString(s)
+		hi := false
+		for _, x := range b {
+			hi = hi || x >= 0x80
+		}
+		vt := "invalid"
+		if v {
+			vt = "valid"
+		}
+		w.Add(emit.C(2, emit.S(s), emit.B(v)), hi, vt, fmt.Sprintf("len:%d", len(b)))
+	}
+	return w.Flush()
 }
